@@ -248,7 +248,7 @@ class Ctx:
         self.claims.append((name, cond, None, None))
 
     # -- solver
-    def check(self, *extra, timeout_ms=None):
+    def check(self, *extra, timeout_ms=None, cross=False):
         s = z3.Solver()
         s.set("timeout", timeout_ms or self.timeout_ms)
         for c in self.pc + self.side + list(extra):
@@ -258,6 +258,12 @@ class Ctx:
         self.stats.tq += time.time() - t
         self.stats.q[r] = self.stats.q.get(r, 0) + 1
         m = s.model() if r == "sat" else None
+        if cross and os.environ.get("SYMX_CROSSCHECK") == "cvc5" and r in ("sat", "unsat"):
+            r2 = _cvc5_verdict(s.to_smt2())
+            key = "cvc5_" + ("agree" if r2 == r else ("no_answer" if r2 not in ("sat", "unsat") else "DISAGREE"))
+            self.stats.q[key] = self.stats.q.get(key, 0) + 1
+            if r2 in ("sat", "unsat") and r2 != r:
+                return "unknown", None, s          # two solvers disagree: never a verdict
         return r, m, s
 
     def branch(self, sb):
@@ -299,6 +305,31 @@ class Ctx:
             v = m.eval(F.Z[i], model_completion=True)
             out[name] = _z3num(v)
         return out
+
+
+def _cvc5_verdict(smt2, tlimit_ms=5000):
+    """second opinion on the SMT-LIB2 dump of a query (thorough tier)"""
+    try:
+        import cvc5
+        slv = cvc5.Solver()
+        slv.setOption("tlimit-per", str(tlimit_ms))
+        slv.setLogic("QF_NRA")
+        ip = cvc5.InputParser(slv)
+        ip.setStringInput(cvc5.InputLanguage.SMT_LIB_2_6, smt2, "q")
+        sm = ip.getSymbolManager()
+        res = "unknown"
+        while True:
+            cmd = ip.nextCommand()
+            if cmd.isNull():
+                break
+            out = str(cmd.invoke(slv, sm)).strip()
+            if out in ("sat", "unsat", "unknown"):
+                res = out
+            elif "error" in out.lower():
+                return "error"
+        return res
+    except Exception as e:      # noqa
+        return "error"
 
 
 def _z3num(v):
@@ -1101,7 +1132,7 @@ def explore(fn, timeout_ms=20000, max_paths=2000, raises=(), margin_models=True)
                 cz = z3.is_true(ts)
                 if cz:
                     stats.q["canonical_zero"] += 1
-                r, m, _ = ctx.check(z3.Not(t))
+                r, m, _ = ctx.check(z3.Not(t), cross=True)
                 model = None
                 if r == "sat":
                     model = ctx.model_named(m)
